@@ -226,7 +226,10 @@ func (x *Exec) heapWF(h0 *Term, l Leaf, isArr bool) {
 		vars = append(vars, i)
 		t = Select(t, i)
 	}
-	x.extraAxioms = append(x.extraAxioms, Quant("forall", vars, IntCmp("<=", t, x.c.Named("alloc0", SInt)), t))
+	// only for objects that exist at entry (r <= alloc0): the entry heap beyond alloc0 stands for the
+	// unknown contents of objects allocated by earlier loop iterations and must stay unconstrained
+	a0 := x.c.Named("alloc0", SInt)
+	x.extraAxioms = append(x.extraAxioms, Quant("forall", vars, Implies(IntCmp("<=", r, a0), IntCmp("<=", t, a0)), t))
 }
 
 type heapInfo struct {
